@@ -55,6 +55,22 @@ def policy_for(fault):
     }.get(fault, GOOD)
 
 
+def big_policy(nbytes, tail):
+    """A policy file of about nbytes: a first group, then comment padding in 64-byte lines (so that any power-of-two cut falls on a
+    line boundary and leaves a well-formed prefix), then `tail` (a second group, or a defect) at the very end."""
+    head = "seccomp:\n  default_action: allow\n  syscalls:\n  - action: errno\n    names:\n    - tuxcall\n"
+    head += "#" + "-" * ((-len(head) - 2) % 64) + "\n"
+    assert len(head) % 64 == 0
+    pad = ("#" + "." * 62 + "\n") * (nbytes // 64)
+    return head + pad + tail
+
+
+BIG_TAIL_GOOD = "  - action: errno\n    names:\n    - security\n"
+BIG_TAILS_BAD = {"unknownsyscall": "  - action: errno\n    names:\n    - verif_no_such_syscall\n",
+                 "badyaml": "  - action: errno\n    names: [unclosed\n",
+                 "unknownaction": "  - action: permit\n    names:\n    - security\n"}
+
+
 def run_sandbox(d, scratch, fault, idx, nnp=True, uid=0, strace=False, policy_text=None, probes=None):
     pol = os.path.join(scratch, "pol_%s_%d.yml" % (fault, idx))
     with open(pol, "w") as f:
@@ -193,6 +209,27 @@ def check(ctx, replay=None):
                             viol("the target's output is unreadable: %s" % e, res)
                 if use_strace and res["strace"] and os.path.exists(res["strace"]):
                     traces.append((eff_fault, strace_events(res["strace"], os.path.basename(res["target"]), eff_fault), res))
+    # (a2) large policy files: what matters sits behind 64 KiB / 1 MiB of padding
+    for size in (70000, 1100000) if th else (70000,):
+        idx += 1
+        res = run_sandbox(d, scratch, "none", idx, policy_text=big_policy(size, BIG_TAIL_GOOD), probes=["184", "185", "183"])
+        ctx.cov["evaluations"] += 1
+        if res is not None:
+            try:
+                got = [p["errno"] for p in json.loads(res["stdout"].strip().splitlines()[-1])["probes"]]
+            except Exception:
+                got = None
+            if res["rc"] != 0 or got != [1, 1, 38]:
+                viol("a %d-byte policy file whose second group sits at the end: the target observes %s, expected [EPERM, EPERM, ENOSYS] (rc %d)" % (size, got, res["rc"]), res,
+                     {"policy": "(generated: first group, %d bytes of comment padding, second group)" % size})
+        for fault, tail in BIG_TAILS_BAD.items():
+            idx += 1
+            res = run_sandbox(d, scratch, "none", idx, policy_text=big_policy(size, tail))
+            ctx.cov["evaluations"] += 1
+            ctx.cov["distinct_nontrivial"] += 1
+            if res is not None and (res["rc"] == 0 or res["marker"]):
+                viol("fault '%s' at the end of a %d-byte policy file: %s" % (fault, size, "the target was started" if res["marker"] else "exit status 0"), res,
+                     {"policy": "(generated: first group, %d bytes of comment padding, defective tail %r)" % (size, tail)})
     # (b) trace validation of the strace records
     if traces:
         tf = ctx.path("sandbox_trace.ndjson")
